@@ -14,7 +14,7 @@ from vlib import *
 GROUPS = {
     "C01": {"mut"},
     "C02": {"snap", "query", "query_state"},
-    "C03": {"vec", "algo"},
+    "C03": {"vec", "algo", "eigen"},
     "C09": {"counts"},
     # the derived graph must itself satisfy C01-C03: its snapshot and query table are judged too
     "C15": {"derive", "derive_src", "derived_snap", "derived_vec", "derived_query"},
@@ -322,6 +322,13 @@ def run_family(prop, tier, replay=None):
             distinct += info["states"]
             generated += info["transitions"]
             extra["algorithm_level"] = info
+            # eigenvector centrality traverses the edge store by name (get_edge per neighbour): judged, as in C18, against
+            # the iteration over get_all_edges() - on the same duplicate-insertion histories
+            info_e = checks_algo.run_cases(prop, gv, work, verdict, suite="eigen", grid=0, groups={"eigen"},
+                                           gen=[("dups", plan["dups"] // 5, 2, 5, 0), ("halves", plan["dups"] // 10, 2, 5, 0)], families=[], nshards=NCPU, tag="_eig")
+            distinct += info_e["states"]
+            generated += info_e["transitions"]
+            extra["eigenvector_on_histories"] = {k: info_e[k] for k in ("cases", "states", "failed_checks")}
         samples = []
         with open(traces[0]) as f:
             for i, line in enumerate(f):
